@@ -71,8 +71,17 @@ class Timer:
 def build_translator():
     tgt = os.path.join(CACHE, "target-tr")
     binp = os.path.join(tgt, "release", "verif-translator")
+    # fresh binary (newer than every source file of the translator): nothing to rebuild
+    try:
+        srcs = [os.path.join(VERIF, "translator", "Cargo.toml")]
+        sd = os.path.join(VERIF, "translator", "src")
+        srcs += [os.path.join(sd, f) for f in os.listdir(sd) if f.endswith(".rs")]
+        if os.path.exists(binp) and os.path.getmtime(binp) > max(os.path.getmtime(f) for f in srcs):
+            return binp
+    except OSError:
+        pass
     rc, out = sh(["cargo", "build", "--release", "--offline", "-q"], cwd=os.path.join(VERIF, "translator"),
-                 env=dict(ENV, CARGO_TARGET_DIR=tgt), timeout=1200)
+                 env=dict(ENV, CARGO_TARGET_DIR=tgt), timeout=3000)
     if rc != 0:
         raise RuntimeError("translator build failed:\n" + out[-3000:])
     return binp
